@@ -72,9 +72,16 @@ class P(Process):
         self.polls = []      # dict(g, front, ts, cond, call)
         self.ncalls = []     # dict(k, ts, g, start, d, end, force, poll)
         self._last_poll = None
+        self._upd = None
 
     def ports_schema(self):
         n = self.name
+        if self.run.cfg.get('twoports'):
+            # two ports of the process are wired to one store
+            return {'s': {
+                'x_' + n: {'_default': 0, '_emit': True},
+                'y_' + n: {'_default': 0, '_updater': tag_updater}},
+                's2': {'z': {'_default': 0, '_emit': True}}}
         return {'s': {
             'x_' + n: {'_default': 0, '_emit': True},
             'y_' + n: {'_default': 0, '_updater': tag_updater},
@@ -132,6 +139,15 @@ class P(Process):
             rec['empty'] = True
             run.ctx.goal('empty update')
             return {}
+        if run.cfg.get('twoports'):
+            # the process keeps one update dictionary and refills it
+            if self._upd is None:
+                self._upd = {'s': {}, 's2': {}}
+            self._upd['s']['x_' + n] = d
+            self._upd['s']['y_' + n] = Tagged((n, k))
+            self._upd['s2']['z'] = d
+            run.ctx.goal('two ports on one store, update dictionary reused')
+            return self._upd
         return {'s': {'x_' + n: d, 'y_' + n: Tagged((n, k)), 'z': d}}
 
 
@@ -190,6 +206,8 @@ def build(ctx, cfg):
         kwargs['initial_global_time'] = run.g0
         ctx.goal('initial global time not 0')
     topology = {n: {'s': ('s',)} for n in names}
+    if cfg.get('twoports'):
+        topology = {n: {'s': ('s',), 's2': ('s',)} for n in names}
     processes = dict(run.procs)
     if cfg.get('nested') and N >= 2:
         # the last process lives in a compartment and reaches the shared
